@@ -65,10 +65,16 @@ func newPool() []vocab.Item {
 		richActivity("https://example.com/items/3"),
 		vocab.Object{ID: "https://example.com/items/4", Type: vocab.ArticleType, Published: time.Date(2005, 6, 1, 0, 0, 0, 0, time.UTC), Updated: time.Date(2030, 1, 1, 0, 0, 0, 0, time.UTC)},
 		vocab.IRI("https://EXAMPLE.com/items/5/"),
+		// a second activity that shares actor, object and target with the first and differs in id and type (an Add and its Remove)
+		func() vocab.Item {
+			a := richActivity("https://example.com/items/3")
+			a.ID, a.Type = "https://example.com/items/6", vocab.DislikeType
+			return a
+		}(),
 	}
 }
 
-const poolN = 6
+const poolN = 7
 
 type colOp struct {
 	Op  byte // A C R
